@@ -275,7 +275,7 @@ def case_constructor(ctx, c, classes, fams):
     lat2s = {}
     for enc in encs:
         if enc not in ("Integer", "Real") or exp2 is None:
-            continue
+            continue          # a subset lists DISTINCT members (C06): repeated members are outside its declared decision space
         cname = [nm for nm in classes if family_of(nm) == (fam, enc)][0]
         try:
             prob = classes[cname](**kw, **common(enc, n, k, nlat))
@@ -285,9 +285,26 @@ def case_constructor(ctx, c, classes, fams):
             ctx.raised(cname + " (unequal multiplicities)", e); continue
         ctx.check("C05.definition", near(lat2s[enc], exp2)[0], cname + ".latentfn", "latent vector == criterion definition", "%s encoding/unequal multiplicities" % enc,
                   witness={"class": cname, "x": x2, "data": {a: b for a, b in kw.items()}, "expected_latent": exp2, "got": lat2s[enc]}, coords=coords)
-    if len(lat2s) == 2:
+    if "Integer" in lat2s and "Real" in lat2s:
         ctx.check("C05.encodings", near(lat2s["Integer"], lat2s["Real"])[0], fam + "*SelectionProblem.latentfn", "identical values in every encoding of the same contributions",
                   "Integer vs Real/unequal multiplicities", witness={"family": fam, "counts": cnt2, "values": lat2s}, coords=coords)
+    # ---- keyword-argument dicts left to their defaults belong to ONE transformation of ONE problem
+    if encs:
+        cname = [nm for nm in classes if family_of(nm) == (fam, encs[0])][0]
+        try:
+            p1 = classes[cname](**kw, **common(encs[0], n, k, nlat))
+            p2 = classes[cname](**kw, **common(encs[0], n, k, nlat))
+            d1 = p1.obj_trans_kwargs
+            if isinstance(d1, dict):
+                d1["leak"] = 1
+                others = [p1.ineqcv_trans_kwargs, p1.eqcv_trans_kwargs, p2.obj_trans_kwargs, p2.ineqcv_trans_kwargs, p2.eqcv_trans_kwargs,
+                          classes[cname](**kw, **common(encs[0], n, k, nlat)).obj_trans_kwargs]
+                ctx.check("C05.evalfn", not any(isinstance(o_, dict) and "leak" in o_ for o_ in others), cname + " keyword-argument defaults",
+                          "an in-place change of one transformation's default keyword arguments stays with that transformation of that problem", "%s encoding" % encs[0],
+                          witness={"class": cname}, coords=coords)
+                d1.pop("leak", None)
+        except Exception as e:
+            ctx.raised(cname + " (default kwargs)", e)
     if len(latents) > 1:
         ks = list(latents)
         for a in ks[1:]:
